@@ -293,6 +293,28 @@ def check_form_layout_on_impl(spec, r):
     miss = [s for s in r['pre_reads']['temp_fields'] if s not in tl]
     if miss:
         return ('read-unwritten-temp', 'precompute_fields reads temp_fields%s which __init__ does not load' % miss)
+    # statement order (the program model of coq/C01/Kernel.v executes the assignments in the emitted order):
+    # whatever a statement reads was assigned by an EARLIER statement, loaded by __init__, or is a jet / weight /
+    # loop index / builtin; nothing is assigned twice
+    ext = re.compile(r'^(VD\w+|_gw\d+|i\d+|fabs|sqrt|exp|log|sin|cos|tan|r(\[\d+\])?|result(\[\d+\])?)$')
+    fl = set('fields[%d]' % k for (arrname, a, b) in r['loads'] if arrname == 'self.fields' for k in range(a, b))
+    tl0 = set('temp_fields[%d]' % k for (arrname, a, b) in r['loads'] if arrname == 'temp_fields' for k in range(a, b))
+    par = set('constants[%d]' % k for k in range(r['nparams_slots']))
+    defined = fl | tl0 | par
+    for fn, sts in (('precompute_fields', r.get('pre_stmts', [])), ('combine', r.get('kernel_stmts', []))):
+        local = set(defined)
+        assigned = set()
+        for lhs, op, reads in sts:
+            for t in reads:
+                if not ext.match(t) and t not in local:
+                    return ('read-before-write', '%s: `%s %s ...` reads %s before any statement assigns it' % (fn, lhs, op, t))
+            if op == '=':
+                if lhs in assigned and not lhs.startswith('result'):
+                    return ('assigned-twice', '%s: %s is assigned twice' % (fn, lhs))
+                assigned.add(lhs)
+                local.add(lhs)
+        # what precompute wrote into fields/constants is visible to the kernel
+        defined |= set(x for x in local if x.startswith(('fields[', 'constants[')))
     cw = set(r['pre_writes']['constants']) | set(range(r['nparams_slots']))
     miss = [s for s in r['kernel_reads']['constants'] if s not in cw]
     if miss:
@@ -459,7 +481,7 @@ def judge(ctx, spec, res, stats):
 def run(ctx):
     thorough = ctx.tier == 'thorough'
     rng = ctx.rng
-    ctx.obligations_stage(PROPS, extra_targets=['C01/Examples.vo'])
+    ctx.obligations_stage(PROPS, extra_targets=['C01/Examples.vo'], gate_dirs=['C06'])
     ctx.assumptions += [
         'PARTIAL: layers 2 and 3 (storage layout, index walking, Gauss index range, early return, bbox shift, '
         'assemble_vector order, nqp) are Coq theorems about coq/C01/Model.v; layer 1 is C06; layer 4 (Cython, gcc -O3 '
@@ -470,6 +492,12 @@ def run(ctx):
         'entry_is_full_gauss_sum takes the locality of the integrand terms (C02 N_local + (bi)linearity of the form) as hypothesis',
         'tie (exact): every layout function is called on synthetic inputs and on every generated form; sizes, offsets, slots, '
         'derivative strides/offsets/axes, support index ranges, nodes per span are compared inside Coq with the model',
+        'program model (coq/C01/Kernel.v) <-> generated text: every var_ref slot equals the model slot (exact, in Coq); in the text of '
+        'precompute_fields and combine every statement reads only what an earlier statement assigned, __init__ loaded, or a jet/weight/'
+        'index/builtin, and nothing is assigned twice (checked on every generated form); the value of the generated `self.nqp = ...` line on '
+        'degree lists of both spaces equals the model nqp_spaces (exact, in Coq)',
+        'every quick run assembles two-space (Petrov-Galerkin) forms in 1-D/2-D/3-D on 17 FIXED degree orderings (space-1 degree higher, lower, '
+        'equal, mixed per axis; identity and curved geometry) and compares them with the oracle at max-degree-over-both-spaces + 1 nodes per span',
         'cdef helpers (from_seq, next_lexicographic, intersect_intervals) are not callable from Python: they are tied through '
         'entry(i,j) == multi_entries == assembled matrix entry, assemble_vector()[I] == entry1(ravel I) (bitwise) and through the oracle',
         'oracle: harness/props/c01_oracle.py evaluates the UN-finalized forest with numpy (long double) at Gauss nodes computed in the '
@@ -639,8 +667,13 @@ META = {
                   'loop over the support intersection equals the sum over all Gauss nodes for any number of axes given locality of the terms '
                   '(entry_is_full_gauss_sum), is zero for disjoint supports (disjoint_support_zero) and is invariant under the bounding-box shift of '
                   'on-demand assemblers (bbox_shift_invariant); next_lexicographic walks row-major order and assemble_vector writes entry I at ravel(I) '
-                  '(next_lexicographic_step, assemble_vector_order); nqp = max degree + 1 (nqp_is_maxdeg_plus_1); mapped Gauss weights sum to the span length '
-                  '(gauss_rule_weights). Front end = C06. Tied to /repo on every run by exact comparison (inside Coq) of sizes, offsets, slots, derivative '
+                  '(next_lexicographic_step, assemble_vector_order); nqp = max degree + 1 over the knot vectors of BOTH spaces (nqp_is_maxdeg_plus_1, '
+                  'nqp_covers_both_spaces); mapped Gauss weights sum to the span length (gauss_rule_weights). Layer 4 inside the model (coq/C01/Kernel.v, '
+                  'built on the C06 evaluator): the MODEL of the emitted kernel -- gen_assign assignments of the kernel variables in the emitted order '
+                  'through an injective slot layout, then r += code(e) -- computes at every Gauss node the C06 value of the scheduled forest '
+                  '(kernel_denotes_integrand, kernel_body_accumulates), hence the entry is the Gauss sum over the joint support of that value and, under '
+                  'locality, over all Gauss nodes (entry_denotes_gauss_sum, entry_denotes_full_gauss_sum); for any field, any number of axes, any well-formed '
+                  'schedule; symmetric variables and the two-phase precompute statement are not covered. Front end = C06. Tied to /repo on every run by exact comparison (inside Coq) of sizes, offsets, slots, derivative '
                   'strides/offsets, support ranges on synthetic inputs and on every generated form. NOT proved: that Cython/gcc -O3 -ffast-math/libm compute the '
                   'emitted arithmetic and that modules build and load; this is tested: shipped assemblers, a fixed corpus of 11 custom forms and freshly '
                   'generated forms are built, loaded and every sampled entry compared with an independent interpreter of the un-finalized form '
